@@ -410,8 +410,24 @@ def check_float_casts(ctx, rep, rule):
                 n += 1
                 ordn += 1
                 val = psc.strip(psc.sym(fn, st['rv']['op']))
+                # `x.trunc() as isize` / `x.round()` ...: a guard on x bounds the rounded value as well when the bounds are integral
+                # (rounding toward zero / to nearest never leaves an interval with integral ends that contains x)
+                if val[0] == 'call' and val[1].endswith(('f64>::trunc', 'f64>::floor', 'f64>::ceil', 'f64>::round')) and len(val[2]) == 1:
+                    val = psc.strip(val[2][0])
                 lo = hi = False
-                facts_ = psc.facts_at(fn, b)
+                facts_ = list(psc.facts_at(fn, b))
+                # `(lo..hi).contains(&v)` came out true: lo <= v and v < hi (NaN answers false)
+                for f in list(facts_):
+                    if f[0] == 'callbool' and f[2] is True and f[1][1].endswith(('Range::<Idx>::contains', 'RangeInclusive::<Idx>::contains')) and len(f[1][2]) == 2:
+                        rg = psc.strip(f[1][2][0])
+                        x_ = psc.strip(f[1][2][1])
+                        if rg[0] == 'agg' and len(rg[3]) >= 2:
+                            incl = 'RangeInclusive' in f[1][1]
+                            facts_.append(('Ge', x_, rg[3][0], f[3], f[4], False))
+                            facts_.append(('Le' if incl else 'Lt', x_, rg[3][1], f[3], f[4], False))
+                        elif rg[0] == 'call' and rg[1].endswith('RangeInclusive::<Idx>::new') and len(rg[2]) == 2:
+                            facts_.append(('Ge', x_, rg[2][0], f[3], f[4], False))
+                            facts_.append(('Le', x_, rg[2][1], f[3], f[4], False))
                 # `v.is_nan()` came out false: from here on a false `v <= lo` does mean `v > lo`
                 not_nan = any(f[0] == 'callbool' and f[1][1].endswith('::is_nan') and f[2] is False and psc.strip(psc.unref(f[1][2][0])) == val for f in facts_)
                 for f in facts_:
